@@ -86,6 +86,7 @@ var representative = map[string][]string{
 }
 
 func registerProbes() {
+	vf.RegisterProbePrefix("C15:obs:", obsProbe)
 	vf.RegisterProbePrefix("C15:ns:", func(sig string) (bool, string) {
 		var s, msg string
 		for _, class := range representative[strings.TrimPrefix(sig, "C15:ns:")] {
